@@ -55,6 +55,7 @@ def demo(tree, seed_dir):
 
 
 def qualify(seed_dir):
+    seed_dir = os.path.abspath(seed_dir)
     patch = os.path.join(seed_dir, "patch.diff")
     t = scratch(patch)
     try:
@@ -74,6 +75,7 @@ def qualify(seed_dir):
 
 
 def check(seed_dir, tier="quick", props=None):
+    seed_dir = os.path.abspath(seed_dir)
     meta = json.load(open(os.path.join(seed_dir, "meta.json")))
     props = props or [meta["property"]]
     t = scratch(os.path.join(seed_dir, "patch.diff"))
